@@ -1,5 +1,7 @@
 //@ unit flarm
-//@ engine kani
+//@ engine kani-cargo
+//@ dep libm = "0.2.11"
+//@ defaultrules r1,r2,r3,r4,r4f
 //@ opt harness_timeout 900
 // C15 — FLARM (crates/rs1090/src/decode/flarm.rs), verbatim: key schedule (obscure, make_key), XXTEA
 // decryption (mx, fixk, btea, Flarm::decode_btea), position reconstruction (decode_latitude /
@@ -16,7 +18,7 @@ pub struct BitReader { pub words: [u32; 5], pub n: usize, pub pos: usize }
 impl BitReader { pub fn rd_u32_le(&mut self) -> Result<u32, DekuError> { if self.pos < self.n { self.pos += 1; Ok(self.words[self.pos - 1]) } else { Err(DekuError::Incomplete) } } }
 // NAMED ASSUMPTION on libm::atan2 (outside CBMC's exact float model): any value in [-pi, pi], sign of y,
 // exact at y = 0, |atan2(y,x)| >= 0.99*|y|/(|x|+|y|)
-mod libm {
+mod libm_standin {
     pub fn atan2(y: f64, x: f64) -> f64 {
         let r: f64 = kani::any();
         kani::assume(r >= -core::f64::consts::PI && r <= core::f64::consts::PI);
@@ -28,6 +30,7 @@ mod libm {
     }
 }
 //@ allow "kani::assume(r"
+//@ assume-note "f64 `%` inside rem_euclid(360.) is computed by libm::fmod (software) because CBMC models frem as IEEE remainder"
 //@ assume-note "libm::atan2 is replaced by a stand-in returning any value in [-pi, pi] with IEEE sign conventions and |atan2(y,x)| >= 0.99*|y|/(|x|+|y|)"
 //@ extract crates/rs1090/src/decode/flarm.rs const KEY1
 //@ extract crates/rs1090/src/decode/flarm.rs const KEY1B
@@ -47,6 +50,13 @@ pub struct Flarm;
 //@ extract crates/rs1090/src/decode/flarm.rs fn decode_longitude impl=Flarm wrap
 //@ extract crates/rs1090/src/decode/flarm.rs fn decode_actype impl=Flarm wrap
 //@ extract crates/rs1090/src/decode/flarm.rs fn decode_groundspeed impl=Flarm wrap
+// CBMC models the float `%` operator as the IEEE *remainder* (round-to-nearest quotient), not as Rust's fmod
+// (measured: it refutes 190.004 < 550.005 % 360. < 190.006).  f64::rem_euclid is therefore replaced by its std
+// definition with `%` computed by the software fmod of the real `libm` crate (exact, symbolically executed).
+pub trait RemEuclidExact { fn rem_euclid_exact(self, rhs: f64) -> f64; }
+impl RemEuclidExact for f64 { fn rem_euclid_exact(self, rhs: f64) -> f64 { let r = libm::fmod(self, rhs); if r < 0.0 { r + rhs.abs() } else { r } } }
+//@ sub "libm::atan2" "libm_standin::atan2"
+//@ sub "\.rem_euclid\(360\.\)" ".rem_euclid_exact(360.)"
 //@ extract crates/rs1090/src/decode/flarm.rs fn decode_track impl=Flarm wrap
 //@ sub "Self::" "Flarm::"
 //@ extract crates/rs1090/src/decode/flarm.rs closure Flarm.decoded reader name=F__decoded sig="(reader: &mut BitReader, timestamp: &u32, icao24: &Address) -> Result<Vec<u32>, DekuError>"
@@ -276,6 +286,7 @@ fn c15_groundspeed_in_range() {
 /// track: finite and in [0, 360) for every derivative vector and every ground speed decode_groundspeed
 /// can return (finite, 0 ..= 182), under the named assumption on atan2
 #[kani::proof]
+#[kani::unwind(70)]
 fn c15_track_in_range() {
     let mut ns = [0i32; 4]; let mut ew = [0i32; 4];
     let mut i = 0;
